@@ -292,7 +292,15 @@ Arguments refines H {A} c.
    that: [chk] with a hint supplier that answers from the override table, else with the honest
    generator's value.  Every constraint is evaluated, also on honest hints (the honest inverse is
    computed by Fermat exponentiation), so [ovr_sound] holds generically. *)
-Definition finv (d : Z) : Z := Zpow_facts.Zpow_mod d (p - 2) p.
+(* inverse by the extended Euclidean algorithm (fuel 200 > 1.45 * 64 steps); its correctness is never
+   assumed: [ovr] evaluates the constraint the hint has to satisfy *)
+Fixpoint egcd_inv (fuel : nat) (r0 r1 t0 t1 : Z) : Z :=
+  match fuel with
+  | O => t0
+  | S f => if r1 =? 0 then t0 else
+             let q := r0 / r1 in egcd_inv f r1 (r0 - q * r1) t1 (t0 - q * t1)
+  end.
+Definition finv (d : Z) : Z := (egcd_inv 200 p (d mod p) 0 1) mod p.
 
 Fixpoint ovr_find (o : list (Z * list Z)) (i : nat) : option (list Z) :=
   match o with
